@@ -18,6 +18,7 @@ namespace {
 
 struct Snap {
 	uint16_t nv = 0;
+	uint32_t nt = 0; // what GetNumTriangles() reports
 	std::vector<Vector3> verts, normals, tangents, bitangents;
 	std::vector<Vector2> uvs;
 	std::vector<Color4> colors;
@@ -29,6 +30,7 @@ struct Snap {
 Snap snap(NifFile& nif, NiShape* s) {
 	Snap q;
 	q.nv = s->GetNumVertices();
+	q.nt = s->GetNumTriangles();
 	nif.GetVertsForShape(s, q.verts);
 	q.hasUvs = nif.GetUvsForShape(s, q.uvs);
 	if (auto n = nif.GetNormalsForShape(s)) {
@@ -75,6 +77,22 @@ Verdict prop(Tape& t, Run& run) {
 	if (ver.stream >= 130)
 		mo.coordRange = 64.0f;
 	Mesh m = genMesh(t, mo);
+	// large meshes: triangle counts at and (where the format has a 32-bit count: FO4, FO76) beyond the
+	// 16-bit limit; the tape byte is read for large meshes only
+	if (m.verts.size() >= 30000) {
+		uint8_t tc = t.u8() % 4;
+		size_t T = tc == 1 ? 65535 : tc == 2 ? 65536 : tc == 3 ? 70001 : 0;
+		if (ver.stream < 130 && T > 65535)
+			T = 65535;
+		if (T) {
+			const size_t nv = std::min<size_t>(m.verts.size(), 65535);
+			m.tris.clear();
+			m.tris.reserve(T);
+			for (size_t i = 0; i < T; i++)
+				m.tris.push_back(Triangle(static_cast<uint16_t>(i % nv), static_cast<uint16_t>((i + 1) % nv), static_cast<uint16_t>((i + 2 + i / nv) % nv)));
+			run.cls(T > 65535 ? "triangles:beyond-16-bit" : "triangles:65535");
+		}
+	}
 	const bool overlong = m.verts.size() >= 65534 && t.chance(64);
 	if (overlong)
 		m.verts.resize(65535 + 1 + t.u8() % 50, Vector3(1, 2, 3));
@@ -116,6 +134,8 @@ Verdict prop(Tape& t, Run& run) {
 	}
 	if (!bitEqual(s0.tris, m.tris) && !(expectNv == 0 && s0.tris.empty()))
 		return run.fail(sigBase + ":triangles-immediate", detail("triangles read back differ from the input right after creation (" + std::to_string(s0.tris.size()) + " vs " + std::to_string(m.tris.size()) + ")"));
+	if (s0.nt != s0.tris.size())
+		return run.fail(sigBase + ":triangle-counter", detail("GetNumTriangles() reports " + std::to_string(s0.nt) + " for " + std::to_string(s0.tris.size()) + " triangles right after creation"));
 	if (uvsApplied) {
 		if (!s0.hasUvs || !bitEqual(s0.uvs, m.uvs))
 			return run.fail(sigBase + ":uvs-immediate", detail("UVs read back differ from the input right after creation"));
@@ -298,6 +318,8 @@ Verdict prop(Tape& t, Run& run) {
 		run.cls("setter-not-applicable-to-shape-kind");
 	// nothing else was resized or changed
 	Snap after = snap(nif, shape);
+	if (after.nt != after.tris.size())
+		return run.fail(sigBase + ":triangle-counter", detail("GetNumTriangles() reports " + std::to_string(after.nt) + " for " + std::to_string(after.tris.size()) + " triangles after the setter"));
 	if (after.nv != expectNv)
 		return run.fail(sigBase + ":setter-changed-vertex-count", detail("vertex count changed to " + std::to_string(after.nv)));
 	auto sizeOk = [&](size_t n, bool has) { return !has || n == expectNv; };
@@ -349,6 +371,8 @@ Verdict prop(Tape& t, Run& run) {
 	}
 	if (!bitEqual(r.tris, after.tris))
 		return run.fail(sigBase + ":reload-triangles", detail("triangles differ after save and reload"));
+	if (r.nt != r.tris.size())
+		return run.fail(sigBase + ":reload-triangle-counter", detail("after reload GetNumTriangles() reports " + std::to_string(r.nt) + " for " + std::to_string(r.tris.size()) + " triangles"));
 	if (after.hasUvs) {
 		if (!r.hasUvs || r.uvs.size() != expectNv)
 			return run.fail(sigBase + ":reload-uvs", detail("UVs missing after reload"));
@@ -409,11 +433,12 @@ void deterministic(Run& run, const std::function<void(const std::vector<uint8_t>
 				feed(tape);
 			}
 	for (uint8_t v = 0; v < 6; v++)
-		for (uint8_t cls : {0xF8, 0xF9}) { // 65534 / 65535 vertices
-			std::vector<uint8_t> tape = {v, 0x80, cls};
-			tape.resize(40, 0x21);
-			feed(tape);
-		}
+		for (uint8_t cls : {0xF8, 0xF9}) // 65534 / 65535 vertices
+			for (uint8_t fill : {0x20, 0x21, 0x22, 0x23}) { // few / 65535 / 65536 / 70001 triangles
+				std::vector<uint8_t> tape = {v, 0x80, cls};
+				tape.resize(400, fill);
+				feed(tape);
+			}
 }
 
 } // namespace
